@@ -671,6 +671,7 @@ def variants():
 
     cf = "tempest/config.py"
     return [
+        Variant("e-floor-after-cap", "bad", replace_stmt("tempest/mcmc.py", "BaseMCMCRunner._calculate_adaptive_steps", "return int(min(n_steps_final, n_steps_max))", "return int(max(n_steps_min, min(n_steps_adaptive, n_steps_max)))"), ["C18.e"], quick=True),
         Variant("c-coerce-before-validate", "bad", insert_before(cf, "SamplerConfig.__post_init__", "self.validate()", "if self.n_particles is not None:\n    object.__setattr__(self, 'n_particles', int(self.n_particles))"), ["C18.c"], quick=True),
         Variant("c-rebind-after-validate", "bad", _after_validate("if self.periodic is not None:\n    object.__setattr__(self, 'periodic', sorted(self.periodic))"), ["C18.c"]),
         Variant("c-default-before-validate-benign", "benign", insert_before(cf, "SamplerConfig.__post_init__", "self.validate()", "if self.resample is None:\n    object.__setattr__(self, 'resample', 'mult')")),
